@@ -96,9 +96,6 @@ MUT = {
     "M35-open-does-not-touch": ("C12", S + "server.py",
         "        self._touch(when)\n        db.commit() # XXX: reconcile the need for this with the comment above",
         "        db.commit() # XXX: reconcile the need for this with the comment above"),
-    "M36-claim-commit-moved-after-open": ("C10", S + "server.py",
-        "            # since that might cause a new mailbox to be allocated\n        db.commit()\n",
-        "            # since that might cause a new mailbox to be allocated\n"),
 }
 
 SPEC = {
@@ -111,6 +108,18 @@ SPEC = {
         'raise Error("only one claim per connection")', 'raise Error("a connection may claim once")'),
     "spec-S4-boundary-inclusive": (S + "server.py",
         '            if row["updated"] > old:', '            if row["updated"] >= old:'),
+    "spec-S6-claim-single-commit": (S + "server.py",
+        "            # since that might cause a new mailbox to be allocated\n        db.commit()\n",
+        "            # since that might cause a new mailbox to be allocated\n"),
+    "spec-S7-prune-frees-mailbox-objects": (S + "server.py",
+        "        in_use = bool(self._mailboxes)\n",
+        "        for mailbox_id in old_mailboxes:\n            self._mailboxes.pop(mailbox_id, None)\n        in_use = bool(self._mailboxes)\n"),
+    "spec-S8-refused-side-row-not-kept": (S + "server.py",
+        "        if side not in [r[\"side\"] for r in rows[:2]]:\n            raise CrowdedError(\"too many sides have opened this mailbox\")",
+        "        if side not in [r[\"side\"] for r in rows[:2]]:\n            db.execute(\"DELETE FROM `mailbox_sides` WHERE `mailbox_id`=? AND `side`=?\", (mailbox_id, side))\n            db.commit()\n            raise CrowdedError(\"too many sides have opened this mailbox\")"),
+    "spec-S10-claim-flag-set-after-success": (S + "server_websocket.py",
+        "        self._did_claim = True\n        nameplate_id = msg[\"nameplate\"]\n        assert isinstance(nameplate_id, type(\"\")), type(nameplate_id)\n        self._nameplate_id = nameplate_id\n        try:\n            mailbox_id = self._app.claim_nameplate(nameplate_id, self._side,\n                                                   server_rx)\n        except CrowdedError:\n            raise Error(\"crowded\")\n        except ReclaimedError:\n            raise Error(\"reclaimed\")\n",
+        "        nameplate_id = msg[\"nameplate\"]\n        assert isinstance(nameplate_id, type(\"\")), type(nameplate_id)\n        try:\n            mailbox_id = self._app.claim_nameplate(nameplate_id, self._side,\n                                                   server_rx)\n        except CrowdedError:\n            raise Error(\"crowded\")\n        except ReclaimedError:\n            raise Error(\"reclaimed\")\n        self._did_claim = True\n        self._nameplate_id = nameplate_id\n"),
     "spec-S5-log-lines": (S + "server.py",
         '        log.msg("beginning app prune")', '        log.msg("beginning app prune (sweep)")'),
 }
